@@ -83,7 +83,7 @@ func cleanRunnerRound(r *ev.Run, cfg runnerCfg) {
 	r.Case("clean-runner %+v", cfg)
 	var planMu sync.Mutex
 	prng := r.Rand(31, uint64(cfg.Round))
-	m := newMonitor(r, cfg, func(idx int) cleanPlan {
+	m := newMonitor(r, scn{"clean-runner", cfg}, func(idx int) cleanPlan {
 		planMu.Lock()
 		defer planMu.Unlock()
 		return cleanPlan{Yields: prng.IntN(6), Fail: prng.IntN(100) < cfg.FailPct}
@@ -253,6 +253,7 @@ type stackCfg struct {
 type stack struct {
 	r        *ev.Run
 	cfg      stackCfg
+	scenario scn
 	m        *monitor
 	dir      string
 	inv      *cleaner.IdleInvoker
@@ -267,12 +268,12 @@ type stack struct {
 	log  []string
 }
 
-func newStack(r *ev.Run, cfg stackCfg) (*stack, error) {
+func newStack(r *ev.Run, cfg stackCfg, scenario scn) (*stack, error) {
 	dir, err := os.MkdirTemp("", "verif-c12-")
 	if err != nil {
 		return nil, err
 	}
-	st := &stack{r: r, cfg: cfg, dir: dir, store: wexec.NewCAS(), live: map[string]int{}}
+	st := &stack{r: r, cfg: cfg, scenario: scenario, dir: dir, store: wexec.NewCAS(), live: map[string]int{}}
 	st.faultHit.Store("")
 	naive, closer, err := wexec.NewNaiveRoot(dir, st.store)
 	if err != nil {
@@ -280,7 +281,7 @@ func newStack(r *ev.Run, cfg stackCfg) (*stack, error) {
 		return nil, err
 	}
 	st.closeFn = func() { closer.Close(); os.RemoveAll(dir) }
-	st.m = newMonitor(r, cfg, func(idx int) cleanPlan {
+	st.m = newMonitor(r, scenario, func(idx int) cleanPlan {
 		return cleanPlan{Yields: idx % 4, Fail: idx == cfg.CleanFaultAt}
 	})
 	if cfg.RealCleaner {
@@ -308,7 +309,7 @@ func (st *stack) violation(sig, detail string) {
 	st.mu.Lock()
 	lg := append([]string(nil), st.log...)
 	st.mu.Unlock()
-	st.r.Violation("C12 "+sig, detail, map[string]any{"scenario": st.cfg, "detail": detail, "log": lg, "root_listing": st.listRoot()})
+	st.r.Violation("C12 "+sig, detail, map[string]any{"scenario": st.scenario, "detail": detail, "log": lg, "root_listing": st.listRoot()})
 }
 
 func (st *stack) listRoot() []string {
@@ -494,7 +495,7 @@ func (st *stack) finish(expectClean bool) {
 
 func creatorStress(r *ev.Run, cfg stackCfg) {
 	r.Case("creators %+v", cfg)
-	st, err := newStack(r, cfg)
+	st, err := newStack(r, cfg, scn{"creators-stress", cfg})
 	if err != nil {
 		r.Inconclusive("cannot set up temp dir: %v", err)
 		return
@@ -544,7 +545,7 @@ func creatorStress(r *ev.Run, cfg stackCfg) {
 // cleaner calls, so that faults can be enumerated over them.
 func creatorScripted(r *ev.Run, cfg stackCfg) (int, int) {
 	r.Case("creators %+v", cfg)
-	st, err := newStack(r, cfg)
+	st, err := newStack(r, cfg, scn{"creators-scripted", cfg})
 	if err != nil {
 		r.Inconclusive("cannot set up temp dir: %v", err)
 		return 0, 0
@@ -630,7 +631,7 @@ func cleanCreatorOverFailingBase(r *ev.Run, cfg failingBaseCfg) {
 		return
 	}
 	defer closer.Close()
-	m := newMonitor(r, cfg, func(idx int) cleanPlan { return cleanPlan{Yields: idx % 3} })
+	m := newMonitor(r, scn{"failing-base", cfg}, func(idx int) cleanPlan { return cleanPlan{Yields: idx % 3} })
 	inv := cleaner.NewIdleInvoker(m.clean)
 	creator := builder.NewCleanBuildDirectoryCreator(&failingCreator{base: builder.NewRootBuildDirectoryCreator(naive), failAt: cfg.FailAt}, inv)
 	ctx := context.Background()
@@ -683,7 +684,7 @@ type execCfg struct {
 
 func executorRuns(r *ev.Run, cfg execCfg) {
 	r.Case("executor %+v", cfg)
-	st, err := newStack(r, stackCfg{Case: cfg.Case, Mode: "executor", RealCleaner: cfg.RealCleaner, DirFaultAt: -1, CleanFaultAt: -1})
+	st, err := newStack(r, stackCfg{Case: cfg.Case, Mode: "executor", RealCleaner: cfg.RealCleaner, DirFaultAt: -1, CleanFaultAt: -1}, scn{"executor", cfg})
 	if err != nil {
 		r.Inconclusive("cannot set up temp dir: %v", err)
 		return
